@@ -788,6 +788,12 @@ class World:
 
     def gen_copy(self, rng, h):
         t = None
+        if self.prop == "C12" and rng.random() < 0.2:
+            # a data set copied with a mask onto its own parent (same length): kept values copied, the rest no-data, source untouched
+            t = self.target(rng, h, "data", lambda r: self._dkind(r) == "float" and not r.get("concat") and len(r.get("values") or []) >= 2
+                            and r["attrs"].get("Association") in ("VERTEX", "CELL"))
+            if t is not None:
+                return {"t": t, "dh": h, "d": None, "children": True, "clear": False, "mask": rng.getrandbits(24) | (1 << 24)}
         if rng.random() < 0.35:
             t = self.target(rng, h, "object", lambda r: bool(r.get("pgs")))
         if t is None and rng.random() < 0.25 and self.copies:
@@ -840,13 +846,23 @@ class World:
         kw = {"parent": parent, "clear_cache": op["clear"]}
         if rec["kind"] != "data":
             kw["copy_children"] = op["children"]
+        masked_values = None
+        if op.get("mask") and rec["kind"] == "data" and self._dkind(rec) == "float" and len(rec.get("values") or []) >= 2:
+            n = len(rec["values"])
+            mask = [bool((op["mask"] >> i) & 1) for i in range(n)]
+            if all(mask):
+                mask[0] = False
+            kw["mask"] = np.array(mask)
+            kw.pop("clear_cache")
+            masked_values = [v if m else "nan" for v, m in zip(rec["values"], mask)]
+            self.sim.probe("copy_data_masked")
         new, outcome = self.call(lambda: ent.copy(**kw), what=f"copy {rec['cls']}")
         del ent, parent
         if outcome != "ok" or new is None:
             return outcome if outcome != "ok" else "raised:None"
         new_recs = snapshot.subtree(self.h[dh].ws, new)
         root_new = ustr(new.uid)
-        info = {"h": h, "src": uid, "dh": dh, "dst": root_new, "children": op["children"], "new": new_recs,
+        info = {"h": h, "src": uid, "dh": dh, "dst": root_new, "children": op["children"], "new": new_recs, "masked_values": masked_values,
                 "in_use": in_use, "src_ids": {u for u in model.subtree(uid)} | {p for u in model.subtree(uid) for p in model.recs[u].get("pgs", {})}}
         # adopt the copy into the model (C12 oracle judges equality with the source)
         order = sorted(new_recs, key=lambda u: (0 if u == root_new else 1, new_recs[u]["kind"], new_recs[u]["name"], u))
